@@ -146,9 +146,12 @@ def r_extent(ctx, prog, rule="R-EXTENT"):
 def run(ctx, prog):
     from rules import rawio
     rawio.run(ctx, prog, writers=False)
+    from rules import nulldata
+    nulldata.run(ctx, prog)
     latch.run(ctx, prog, want_c16=False)
     r_bounded(ctx, prog)
     c16.r_reader(ctx, prog)
+    c16.r_readerkind(ctx, prog)
     r_extent(ctx, prog)
     c19.r_len(ctx, prog)
     c19.r_accw(ctx, prog)
